@@ -293,8 +293,10 @@ def _statics(ck, p, byk):
         const_second = all("k" in t["args"][1] for _, t in news)
         users = [g for g in p.fns.values() if _uses_static(g, "fst_dictionary::AUTOMATON_BUILDERS") and g.get("kind") != "Closure"]
         only_build = all(keyname(p, g).startswith("harper_core::spell::fst_dictionary::build_dfa") or "AUTOMATON_BUILDERS" in g.name for g in users)
-        ck.decide(rule, "AUTOMATON_BUILDERS:keyed", eqs >= 1 and bool(news) and const_second and only_build, b.span,
-                  "builders are looked up by comparing the stored distance with the parameter (%d comparisons), built from (max_distance, constant)=%s, used only by build_dfa=%s" % (eqs, const_second, only_build))
+        ords = _distance_orderings(clos)
+        ck.decide(rule, "AUTOMATON_BUILDERS:keyed", eqs >= 1 and bool(news) and const_second and only_build and not ords, b.span,
+                  "builders are looked up by comparing the stored distance with the parameter (%d equality comparisons, %d ordering comparisons of u8 distances%s), built from (max_distance, constant)=%s, used only by build_dfa=%s" % (
+                      eqs, len(ords), "" if not ords else " at lines %s: a builder for ANOTHER distance can be picked, so the automaton accepts words beyond the requested bound (or fewer), depending on what this thread searched for before" % sorted(set(ords)), const_second, only_build))
     cc = [s for s in p.statics if s["name"].endswith("lint_group::CURATED_CONFIG")]
     if ck.anchor(rule, "CURATED_CONFIG", cc):
         ts = p.tys[cc[0]["crate"]][cc[0]["ty"]]["s"]
@@ -729,6 +731,49 @@ def _all_terms(o):
 
 
 # ---------------------------------------------------------------------------------------------------
+def _distance_orderings(bodies):
+    """lines of <, <=, >, >= comparisons between u8 values in the given bodies"""
+    out = []
+    for c in bodies:
+        for blk in c.blocks:
+            if blk["cleanup"]:
+                continue
+            for sx in blk["s"]:
+                if sx["k"] == "assign" and sx["rv"]["k"] == "bin" and sx["rv"]["op"] in ("Lt", "Le", "Gt", "Ge"):
+                    tys = []
+                    for side in ("a", "b"):
+                        pl = place_of(sx["rv"][side])
+                        if pl:
+                            tys.append(c.local_tystr(pl[0]) if len(pl) == 1 else "")
+                        else:
+                            tys.append(str(sx["rv"][side].get("k", {}).get("txt", "")))
+                    if any(t == "u8" or t.endswith("_u8") for t in tys):
+                        out.append(sx["ln"])
+            t = blk["t"]
+            if t["k"] == "call" and method(t) in ("lt", "le", "gt", "ge", "cmp", "partial_cmp", "min_by_key", "max_by_key", "min", "max") and any("u8" in (c.local_tystr(place_of(a)[0]) if place_of(a) else "") for a in t["args"]):
+                out.append(t["ln"])
+    return out
+
+
+def builders_keyed(ck, p, rule):
+    """C15: the automaton a fuzzy search runs is built for exactly the requested distance"""
+    byk = fns_by_key(p)
+    b = byk.get("harper_core::spell::fst_dictionary::build_dfa")
+    if not ck.anchor(rule, "fst_dictionary::build_dfa", b):
+        return
+    b = b[0]
+    ck.saw(b)
+    bodies = with_closures(p, b)
+    ords = _distance_orderings(bodies)
+    news = [(c, t) for c in bodies for _, t in c.calls() if inst_of(t).endswith("LevenshteinAutomatonBuilder::new") or (method(t) == "new" and "levenshtein_automata" in inst_of(t))]
+    if ords:
+        ck.refuted(rule, "build_dfa:exact-distance", b.loc(sorted(set(ords))[0]), "the cached automaton builder is chosen by an ordering comparison of distances (lines %s), not by equality with the requested one: a search with bound d can run an automaton built for a larger bound and return words at a distance beyond d - which one it gets depends on what the thread searched for before" % sorted(set(ords)))
+    elif not news:
+        ck.undecided(rule, "build_dfa:exact-distance", b.span, "no LevenshteinAutomatonBuilder::new found under build_dfa")
+    else:
+        ck.proved(rule, "build_dfa:exact-distance", b.span, "builders are created for the requested distance and looked up by equality only (no ordering comparison of distances)")
+
+
 def _rebuild(ck, p):
     rule = "R-C05-rebuild"
     f = p.fns.get("harper_ls::backend::{impl#0}::update_document::{closure#0}")
